@@ -1,5 +1,5 @@
 (* Proofs/SecP.v — lemmas about Model/Sec.v (C10). *)
-From PV Require Import Base.Bytes Base.Outcome Model.Sec Gen.GenCurveC10.
+From PV Require Import Base.Bytes Base.Outcome Model.Sec Gen.GenCurveC10 Proofs.FermatC10.
 From Coq Require Import ZifyBool ZifyNat ZifyN Znumtheory Zpow_facts.
 Local Open Scope Z_scope.
 
@@ -509,32 +509,49 @@ Qed.
 (* ---- statements as they appear in Props/C10.v ---------------------------------------------------- *)
 Definition fermat_premise (p : Z) : Prop := forall t, 0 < t < p -> (t ^ (p - 1)) mod p = 1.
 
+Lemma fermat_from_prime p : prime p -> fermat_premise p.
+Proof. intros Hp t Ht. apply fermat_little; assumption. Qed.
+
 Lemma sec_roundtrip_generic (p a b : Z) :
-  2 ^ 248 <= p < 2 ^ 256 -> prime p -> p mod 4 = 3 -> fermat_premise p ->
+  2 ^ 248 <= p < 2 ^ 256 -> prime p -> p mod 4 = 3 ->
   forall (x y : Z) (c : bool), 0 <= x < p -> 0 < y < p -> contains_point p a b x y = true ->
   exists sec, public_pair_to_sec (x, y) c = Ret sec /\
     length sec = (if c then 33 else 65)%nat /\
     key_from_sec p a b sec = Ret ((x, y), c).
 Proof.
-  intros Hr Hprime H34 Hf x y c Hx Hy Hc.
+  intros Hr Hprime H34 x y c Hx Hy Hc.
   apply key_from_sec_roundtrip; try assumption; try lia.
   - apply bit_length_byte_count; assumption.
-  - apply Hf. assumption.
+  - apply fermat_little; assumption.
 Qed.
 
 Lemma sec_roundtrip_k1 :
-  prime k1_p -> fermat_premise k1_p ->
+  prime k1_p ->
   forall (x y : Z) (c : bool), 0 <= x < k1_p -> 0 <= y < k1_p -> contains_point k1_p k1_a k1_b x y = true ->
   exists sec, public_pair_to_sec (x, y) c = Ret sec /\
     length sec = (if c then 33 else 65)%nat /\
     key_from_sec k1_p k1_a k1_b sec = Ret ((x, y), c).
 Proof.
-  intros Hprime Hf x y c Hx Hy Hc.
+  intros Hprime x y c Hx Hy Hc.
   assert (Hy0 : y <> 0).
-  { intros ->. rewrite (k1_no_y0 Hf x Hx) in Hc. discriminate. }
+  { intros ->. rewrite (k1_no_y0 (fermat_from_prime _ Hprime) x Hx) in Hc. discriminate. }
   apply sec_roundtrip_generic; try assumption; try lia.
   - exact k1_p_range.
   - exact k1_mod4.
+Qed.
+
+(* the compressed form alone, in both decoder modes, at sec_to_public_pair level *)
+Lemma sec_decode_roundtrip_generic (p a b : Z) :
+  2 ^ 248 <= p < 2 ^ 256 -> prime p -> p mod 4 = 3 ->
+  forall (x y : Z) (c strict : bool), 0 <= x < p -> 0 < y < p -> contains_point p a b x y = true ->
+  exists sec, public_pair_to_sec (x, y) c = Ret sec /\ sec_to_public_pair p a b sec strict = Ret (x, y).
+Proof.
+  intros Hr Hprime H34 x y c strict Hx Hy Hc.
+  pose proof (bit_length_byte_count p Hr) as Hbc.
+  destruct c.
+  - destruct (sec_compressed_roundtrip p a b Hbc ltac:(lia) x y strict Hprime H34
+                (fermat_little p y Hprime Hy) Hx Hy ltac:(lia) Hc) as (sec & E1 & _ & E2). eauto.
+  - destruct (sec_uncompressed_roundtrip p a b Hbc x y strict Hx ltac:(lia) ltac:(lia)) as (sec & E1 & _ & E2). eauto.
 Qed.
 
 Lemma sec_canonical_generic (p a b : Z) :
@@ -592,4 +609,15 @@ Lemma k1_g_roundtrips :
 Proof.
   split; [exact k1_g_on_curve|]. split; [exact k1_g_fermat|].
   intros [|]; vm_compute; reflexivity.
+Qed.
+
+(* the quirk behind the hypothesis 0 < y: a point of order 2 is not decodable from its compressed form *)
+Lemma y0_not_decodable (p a b x : Z) : 3 <= p ->
+  contains_point p a b x 0 = true -> points_for_x p a b x = Raise E_VALUE.
+Proof.
+  intros Hp Hc. unfold points_for_x, modular_sqrt.
+  rewrite (alpha_of_point p a b ltac:(lia) x 0 Hc).
+  replace (0 * 0) with 0 by ring. rewrite Z.mod_0_l by lia.
+  assert (He : 0 < (p + 1) / 4) by (apply Z.div_str_pos; lia).
+  rewrite pymodpow_spec by lia. rewrite Z.pow_0_l by lia. rewrite Z.mod_0_l by lia. reflexivity.
 Qed.
